@@ -207,7 +207,11 @@ HttpCombos == {
   C("http/gmap7host", "http", "gmap7host", "lf", "id", <<"http_act_host">>),
   C("http/linkname", "http", "linkname", "crlf", "id", <<"http_name">>),
   C("http/linkurl", "http", "linkurl", "crlf", "id", <<"http_href_url">>),
-  C("http/linkhost", "http", "linkhost", "crlf", "id", <<"http_href_host">>) }
+  C("http/linkhost", "http", "linkhost", "crlf", "id", <<"http_href_host">>),
+  \* a link WITHOUT a display string: the empty name of a map line shows as nothing, the absent Name= of a link block
+  \* makes the renderer label the link with its selector (escaped as text) - the data is a selector in both
+  C("http/gmapnoname", "http", "gmapnoname", "lf", "id", <<"http_href_local">>),
+  C("http/linknoname", "http", "linknoname", "crlf", "id", <<"http_href_local", "http_name">>) }
 
 WapCombos == {
   C("wap/sel404", "wap", "sel404", "none", "id", <<"wap_err">>),
@@ -228,6 +232,8 @@ WapCombos == {
   C("wap/linkname", "wap", "linkname", "crlf", "id", <<"wap_name">>),
   C("wap/linkurl", "wap", "linkurl", "crlf", "id", <<"wap_href_url">>),
   C("wap/linkhost", "wap", "linkhost", "crlf", "id", <<"wap_href_host">>),
+  C("wap/gmapnoname", "wap", "gmapnoname", "lf", "id", <<"wap_href_local">>),
+  C("wap/linknoname", "wap", "linknoname", "crlf", "id", <<"wap_href_local", "wap_name">>),
   C("wap/textline", "wap", "textline", "lf", "id", <<"wap_line">>) }
 
 GplusCombos == {
@@ -248,7 +254,7 @@ GplusCombos == {
 \* data is link number pad+1.  WAP hands out 12 access keys; later links are rendered by the other branch.
 AccessKeys == 12
 KeyedWapHrefs == {"wap_href_local", "wap_href_url", "wap_href_host"}
-MenuSources == {"gmapname", "gmapsel", "gmapurl", "gmaphost", "gmap7", "gmap7host", "linkname", "linkurl", "linkhost"}
+MenuSources == {"gmapnoname", "linknoname", "gmapname", "gmapsel", "gmapurl", "gmaphost", "gmap7", "gmap7host", "linkname", "linkurl", "linkhost"}
 RECURSIVE NatStr(_)
 NatStr(n) == IF n < 10 THEN SubSeq("0123456789", n + 1, n + 1) ELSE NatStr(n \div 10) \o NatStr(n % 10)
 Padded(c, k) ==
